@@ -2,7 +2,10 @@
 
 package verifsim
 
-import "sort"
+import (
+	"sort"
+	"testing"
+)
 
 // Plan generation for World A. Swarm style: every run picks its own worker
 // count, timing knobs, sampler, decoration options, enabled fault kinds.
@@ -321,4 +324,31 @@ func init() {
 	for _, id := range []string{"C01", "C02", "C03", "C04", "C05", "C06", "C07"} {
 		Register(&Check{ID: id, World: "A/collector", Gen: genA(id), Run: runWorldA, Simplify: simplifyA, OwnProbes: own[id], Real: real, Stub: stub})
 	}
+	// C04 also covers the stress-relief path, which only exists with the routers: a
+	// quarter of its runs are World B stress plans (late spans, under stress, of
+	// traces decided earlier at another rate)
+	c04 := registry["C04"]
+	baseGen := c04.Gen
+	c04.World = "A/collector + B/cluster (stress path)"
+	c04.Gen = func(r *Rng, tier string, p *Plan) {
+		if r.Bool(0.25) {
+			p.N["stressb"] = 1
+			genStressB(r, tier, p)
+			return
+		}
+		baseGen(r, tier, p)
+	}
+	c04.Run = func(t *testing.T, p *Plan) *Outcome {
+		if p.On("stressb") {
+			return runStressB(t, p)
+		}
+		return runWorldA(t, p)
+	}
+	c04.Simplify = func(p *Plan) []*Plan {
+		if p.On("stressb") {
+			return nil
+		}
+		return simplifyA(p)
+	}
+	c04.OwnProbes = append(c04.OwnProbes, "late_span_under_stress_of_trace_decided_before", "stressed_span_kept")
 }
